@@ -75,7 +75,28 @@ def _precedence_check(explicit, dna, decl):
     return None if ok else f'strategy.hp = {got!r}, expected {want!r} (explicit={explicit!r}, dna={dna!r}, declared={decl!r})'
 
 
+def float_range_grid():
+    """BOUNDED stand-in for assumption A-1: the decoded value must lie inside [min, max] in binary floating point, too (a value one
+    ulp above the declared maximum is out of range for whatever consumes it)"""
+    from jesse.helpers import dna_to_hp
+    n = 0
+    for lo in (0, 0.01, 0.5, -1.5, -50, 3, 10, 0.25, 1e-5):
+        for w in (0.5, 1, 2, 7, 7.5, 15, 30, 60, 79, 99.99, 100, 158, 1000, 0.001):
+            hi = lo + w
+            for ty in (float, int):
+                a, b = (lo, hi) if ty is float else (int(lo), int(lo) + max(1, int(w)))
+                for g in range(K.FIRST, K.LAST + 1):
+                    n += 1
+                    v = dna_to_hp([{'name': 'p', 'type': ty, 'min': a, 'max': b}], chr(g))['p']
+                    if not (a <= v <= b):
+                        return f'dna_to_hp([{ty.__name__} {a}..{b}], {chr(g)!r} (code {g})) = {v!r} lies outside the declared range', n
+    return None, n
+
+
 def replay(pl):
+    if pl['obligation'].startswith('float-grid'):
+        d, n = float_range_grid()
+        return {'confirmed': bool(d), 'detail': d or f'{n} decodes on the grid stay inside their declared range in binary floats', 'cases': n}
     m = pl['m']
     ob = pl['obligation']
     rng = random.Random(pl.get('seed', 0))
